@@ -247,8 +247,15 @@ class EBNF_to_BNF(Transformer_InPlace):
         # Helper rules inherit the options of the rule that created them, so they can only be shared between rules that agree on them
         return bool(self.rule_options and self.rule_options.keep_all_tokens)
 
+    @staticmethod
+    def _filtered_terminals(expr) -> tuple:
+        # Terminals compare equal regardless of filter_out ("x" and X: "x" are both Terminal('X')),
+        # but a helper rule that drops its tokens can't stand in for one that keeps them
+        terms = expr.scan_values(lambda v: isinstance(v, Terminal)) if isinstance(expr, Tree) else [expr]
+        return tuple(t.filter_out for t in terms if isinstance(t, Terminal))
+
     def _add_recurse_rule(self, type_: str, expr: Tree):
-        key = (expr, self._keep_all_tokens())
+        key = (expr, self._filtered_terminals(expr), self._keep_all_tokens())
         try:
             return self.rules_cache[key]
         except KeyError:
@@ -272,7 +279,7 @@ class EBNF_to_BNF(Transformer_InPlace):
             new_rule: target target target atom atom atom atom
 
         """
-        key = (a, b, target, atom, self._keep_all_tokens())
+        key = (a, b, target, atom, self._filtered_terminals(atom), self._keep_all_tokens())
         try:
             return self.rules_cache[key]
         except KeyError:
@@ -305,7 +312,7 @@ class EBNF_to_BNF(Transformer_InPlace):
                     | target target target atom atom atom
 
         """
-        key = (a, b, target, atom, "opt", self._keep_all_tokens())
+        key = (a, b, target, atom, "opt", self._filtered_terminals(atom), self._keep_all_tokens())
         try:
             return self.rules_cache[key]
         except KeyError:
